@@ -25,6 +25,7 @@ import featlib
 from featlib import Check, walk, render, is_call, rel
 from lafem_roles import (Unknown, strip_targs, defile, strip, Locals, perspective, objkey, accessor, const_value,
                          assertions, counting_loop, is_zero, flatten_if_chain, stmts, live_must_pass)
+from norm_c03 import Frame, MergeInterp
 
 LAFEM = featlib.repo_path("kernel/lafem/")
 MATRIX_CLASSES = ("FEAT::LAFEM::SparseMatrixCSR", "FEAT::LAFEM::SparseMatrixBCSR")
@@ -654,7 +655,8 @@ def fmt_kind(k):
 
 
 def merge_kinds(ck, fn, sig):
-    """index kinds of every subscript in a merge product; equalities only from the function's XASSERTs"""
+    """index kinds of every subscript in a merge product (helpers the product calls are inlined: their parameters denote
+    the caller's arguments); equalities only from the function's XASSERTs"""
     loc = Locals(fn)
     uf = UF()
     for cond, _ in assertions(fn):
@@ -663,14 +665,14 @@ def merge_kinds(ck, fn, sig):
             l, r = accessor(loc, c["lhs"]), accessor(loc, c["rhs"])
             if l and r and l["name"] in DIMKIND and r["name"] in DIMKIND:
                 uf.union((DIMKIND[l["name"]], l["obj"]), (DIMKIND[r["name"]], r["obj"]))
-    var = {}          # decl id -> Var node
-    loopvar = {}      # decl id -> For node
-    for n in fn.nodes():
-        if n.get("k") == "Var":
-            var[n["d"]] = n
-        if n.get("k") == "For" and n.get("init") and n["init"].get("k") == "Decl":
-            for v in n["init"]["vars"]:
-                loopvar[v["d"]] = n
+    root = Frame(fn)
+    frames = list(root.frames())
+    loopvar = {}      # (frame uid, decl id) -> For node
+    for fr in frames:
+        for n in fr.fn.nodes():
+            if n.get("k") == "For" and n.get("init") and n["init"].get("k") == "Decl":
+                for v in n["init"]["vars"]:
+                    loopvar[(fr.uid, v["d"])] = n
     memo = {}
     records = {}      # array key -> [(ok, text, line)]
     keybase = "%s::%s%s" % (short(fn.cls), fn.name, sig)
@@ -678,38 +680,42 @@ def merge_kinds(ck, fn, sig):
     def rec(arr, ok, text, line):
         records.setdefault(arr, []).append((ok, text, line))
 
-    def array_of(n):
-        a = accessor(loc, n)
+    def array_of(n, fr):
+        a = fr.accessor(n)
         if a and a["name"] in ("row_ptr", "col_ind", "val", "elements"):
             return a
         return None
 
-    def kind(n, depth=0):
+    def kind(n, fr, depth=0):
         """kind of an integer expression (or None for non-index values)"""
-        if depth > 30:
+        if depth > 40:
             raise Unknown("kind recursion")
         n = strip(n)
         k = n.get("k")
         if k == "Ref" and n.get("dk") == "local":
             d = n.get("d")
-            if d in memo:
-                return memo[d]
-            v = var.get(d)
+            if (fr.uid, d) in memo:
+                return memo[(fr.uid, d)]
+            v = fr.loc.var.get(d)
             if v is None or v.get("init") is None:
                 raise Unknown("local `%s` without initialiser" % n.get("n"))
             init = strip(v["init"])
-            if is_zero(init) and d in loopvar:
-                c = strip(loopvar[d]["c"])
-                if c.get("k") == "Bin" and c.get("op") == "<":
-                    a = accessor(loc, c["rhs"])
+            if is_zero(init) and (fr.uid, d) in loopvar:
+                c = strip(loopvar[(fr.uid, d)]["c"])
+                if c.get("k") == "Bin" and c.get("op") in ("<", "!="):
+                    a = fr.accessor(c["rhs"])
                     if a and a["name"] in DIMKIND:
-                        memo[d] = (DIMKIND[a["name"]], a["obj"])
-                        return memo[d]
+                        memo[(fr.uid, d)] = (DIMKIND[a["name"]], a["obj"])
+                        return memo[(fr.uid, d)]
                 raise Unknown("bound of loop variable `%s`" % n.get("n"))
-            memo[d] = kind(init, depth + 1)
-            return memo[d]
+            memo[(fr.uid, d)] = kind(init, fr, depth + 1)
+            return memo[(fr.uid, d)]
+        if k == "Ref" and n.get("dk") == "param" and n.get("d") in fr.bind:
+            # parameter of an inlined helper: the kind of the caller's argument (increments keep the kind)
+            a, f2 = fr.bind[n["d"]]
+            return kind(a, f2, depth + 1)
         if k == "Index":
-            arr = array_of(n["b"])
+            arr = array_of(n["b"], fr)
             if arr is None:
                 raise Unknown("array `%s`" % render(n["b"]))
             akey = "%s.%s" % (arr["obj"], arr["name"])
@@ -718,7 +724,7 @@ def merge_kinds(ck, fn, sig):
             if idx.get("k") == "Bin" and idx.get("op") == "+" and strip(idx["rhs"]).get("k") == "Int" and int(strip(idx["rhs"])["v"]) == 1:
                 plus1 = True
                 idx = strip(idx["lhs"])
-            ik = kind(idx, depth + 1)
+            ik = kind(idx, fr, depth + 1)
             if ik is None:
                 raise Unknown("index `%s` of %s has no index kind the rule can derive (line %s)" % (render(idx), akey, n.get("l")))
             need = {"row_ptr": ("Row", arr["obj"]), "col_ind": ("NZ", arr["obj"]), "val": ("NZ", arr["obj"]), "elements": ("Dim", arr["obj"])}[arr["name"]]
@@ -726,43 +732,74 @@ def merge_kinds(ck, fn, sig):
             rec(akey, ok, "%s[%s%s]: index kind %s, array needs %s%s" % (akey, render(idx), "+1" if plus1 else "", fmt_kind(ik), fmt_kind(need),
                                                                      "" if ok else " -- no XASSERT of the function makes these dimensions equal"), n.get("l"))
             return {"row_ptr": ("NZ", arr["obj"]), "col_ind": ("Col", arr["obj"])}.get(arr["name"])
-        if k in ("Int", "Float"):
-            return None
         return None
 
+    def canon(n, fr, depth=0):
+        """rendering of an index expression that is comparable across frames"""
+        n, fr = fr.resolve(n)
+        if n is None or depth > 12:
+            return "?"
+        if n.get("k") == "Ref":
+            return "v%s:%s" % (fr.uid, n.get("d")) if n.get("dk") in ("local", "param") else render(n)
+        if n.get("k") == "Bin":
+            return "(%s%s%s)" % (canon(n["lhs"], fr, depth + 1), n.get("op"), canon(n["rhs"], fr, depth + 1))
+        if n.get("k") == "Index":
+            return "%s[%s]" % (canon(n["b"], fr, depth + 1), canon(n["idx"], fr, depth + 1))
+        return render(n)
+
     try:
-        for n in fn.nodes():
-            if n.get("k") == "Index":
-                kind(n)
+        for fr in frames:
+            for n in fr.fn.nodes():
+                if n.get("k") == "Index":
+                    kind(n, fr)
         # comparisons between index-valued expressions
-        for n in fn.nodes():
-            if n.get("k") == "Bin" and n.get("op") in ("==", "<", ">", "<=", ">=", "!="):
-                try:
-                    a, b = kind(n["lhs"]), kind(n["rhs"])
-                except Unknown:
-                    continue
-                if a and b:
-                    ok = uf.same(a, b)
-                    rec("compare", ok, "`%s` compares %s with %s%s" % (render(n)[:60], fmt_kind(a), fmt_kind(b), "" if ok else " -- different index spaces"), n.get("l"))
-        # cursor segments: a variable initialised from P[e] may only be compared against P[e+1]
-        for d, v in var.items():
-            init = strip(v["init"]) if v.get("init") is not None else None
-            if init is None or init.get("k") != "Index":
-                continue
-            arr = array_of(init["b"])
-            if not arr or arr["name"] != "row_ptr":
-                continue
-            seg = render(strip(init["idx"]))
-            akey = "%s.%s" % (arr["obj"], arr["name"])
-            for n in fn.nodes():
-                if n.get("k") == "Bin" and n.get("op") in ("<", ">=", ">", "<="):
+        for fr in frames:
+            for n in fr.fn.nodes():
+                if n.get("k") == "Bin" and n.get("op") in ("==", "<", ">", "<=", ">=", "!="):
+                    try:
+                        a, b = kind(n["lhs"], fr), kind(n["rhs"], fr)
+                    except Unknown:
+                        continue
+                    if a and b:
+                        ok = uf.same(a, b)
+                        rec("compare", ok, "`%s` compares %s with %s%s" % (render(n)[:60], fmt_kind(a), fmt_kind(b), "" if ok else " -- different index spaces"), n.get("l"))
+        # cursor segments: a variable that starts at P[e] may only be compared against P[e+1]
+        starts = {}       # (frame uid, decl id) -> (accessor, canonical segment index, name)
+        for fr in frames:
+            for d, v in fr.loc.var.items():
+                if v.get("init") is not None and strip(v["init"]).get("k") == "Index":
+                    init = strip(v["init"])
+                    arr = array_of(init["b"], fr)
+                    if arr and arr["name"] == "row_ptr":
+                        starts[(fr.uid, d)] = (arr, canon(init["idx"], fr), v["n"], render(strip(init["idx"])))
+            for p in fr.fn.params:
+                if p["d"] in fr.bind and p["d"] in fr.loc.written:
+                    a0, f0 = fr.bind[p["d"]]
+                    m0, f1 = f0.resolve(a0)
+                    if m0 is not None and m0.get("k") == "Index":
+                        arr = array_of(m0["b"], f1)
+                        if arr and arr["name"] == "row_ptr":
+                            starts[(fr.uid, p["d"])] = (arr, canon(m0["idx"], f1), p["n"], render(strip(m0["idx"])))
+        for fr in frames:
+            for n in fr.fn.nodes():
+                if n.get("k") == "Bin" and n.get("op") in ("<", ">=", ">", "<=", "!=", "=="):
                     l, r = strip(n["lhs"]), strip(n["rhs"])
-                    if l.get("k") == "Ref" and l.get("d") == d and r.get("k") == "Index":
-                        arr2 = array_of(r["b"])
-                        ri = strip(r["idx"])
-                        okseg = (arr2 and arr2["obj"] == arr["obj"] and arr2["name"] == "row_ptr" and ri.get("k") == "Bin" and ri.get("op") == "+"
-                                 and render(strip(ri["lhs"])) == seg and strip(ri["rhs"]).get("k") == "Int" and int(strip(ri["rhs"])["v"]) == 1)
-                        rec(akey, bool(okseg), "cursor `%s` starts at %s[%s] and is bounded by `%s`%s" % (v["n"], akey, seg, render(r), "" if okseg else " -- not the end of the same segment"), n.get("l"))
+                    if not (l.get("k") == "Ref" and (fr.uid, l.get("d")) in starts):
+                        l, r = r, l
+                    if not (l.get("k") == "Ref" and (fr.uid, l.get("d")) in starts):
+                        continue
+                    arr, seg, vname, segtext = starts[(fr.uid, l["d"])]
+                    rr, f2 = fr.resolve(r)
+                    if rr is None or rr.get("k") != "Index":
+                        continue
+                    arr2 = array_of(rr["b"], f2)
+                    if arr2 is None:
+                        continue
+                    ri = strip(rr["idx"])
+                    okseg = (arr2["obj"] == arr["obj"] and arr2["name"] == "row_ptr" and ri.get("k") == "Bin" and ri.get("op") == "+"
+                             and canon(ri["lhs"], f2) == seg and strip(ri["rhs"]).get("k") == "Int" and int(strip(ri["rhs"])["v"]) == 1)
+                    akey = "%s.%s" % (arr["obj"], arr["name"])
+                    rec(akey, bool(okseg), "cursor `%s` starts at %s[%s] and is bounded by `%s`%s" % (vname, akey, segtext, render(rr), "" if okseg else " -- not the end of the same segment"), n.get("l"))
     except Unknown as e:
         ck.incomplete("E2.merge-kinds", "%s: %s" % (keybase, e))
         return
@@ -774,363 +811,33 @@ def merge_kinds(ck, fn, sig):
 
 
 def merge_paths(ck, fn, sig):
-    """E7 no-silent-drop on the merge while loop; returns the normalised cursor logic (for the sibling note)"""
-    loc = Locals(fn)
+    """E7 no-silent-drop, decided by path enumeration over one generic iteration of the merge loop and the code that follows
+    it (lib/norm_c03.MergeInterp: helpers inlined, loop-condition conjuncts / refusals behind the loop / status returns are
+    ordinary paths); returns the normalised cursor logic (for the sibling note)"""
     keybase = "%s::%s%s" % (short(fn.cls), fn.name, sig)
-    whiles = [n for n in fn.nodes() if n.get("k") == "While"]
-    if len(whiles) != 1:
-        ck.incomplete("E7.no-silent-drop", "%s: %d while loops, expected the merge loop" % (keybase, len(whiles)))
-        return None
-    w = whiles[0]
-    cfg = fn.cfg
     try:
-        conj = []
-        def flat(x):
-            x = strip(x)
-            if x.get("k") == "Bin" and x.get("op") == "&&":
-                flat(x["lhs"]); flat(x["rhs"])
-            else:
-                conj.append(x)
-        flat(w["c"])
-        def b_bound(x):
-            """`cur < row_ptr(M)[..]` (or commuted) with M != this -> normalised (cursor ref, bound index node)"""
-            if x.get("k") == "Bin" and x.get("op") in ("<", ">"):
-                l_, r_ = strip(x["lhs"]), strip(x["rhs"])
-                if x["op"] == ">":
-                    l_, r_ = r_, l_
-                rr_ = loc.resolve(r_)
-                if l_.get("k") == "Ref" and l_.get("dk") == "local" and rr_.get("k") == "Index":
-                    a_ = accessor(loc, rr_["b"])
-                    if a_ and a_["name"] == "row_ptr" and a_["obj"] != "this":
-                        return l_, rr_
-            return None
-        bb = [(x, b_bound(x)) for x in conj]
-        main = [(x, r) for x, r in bb if r is not None]
-        extras = [x for x, r in bb if r is None]
-        if len(main) != 1:
-            raise Unknown("merge loop condition `%s` has no unique bound of the B cursor" % render(w["c"])[:80])
-        if extras:
-            # a further conjunct ends the loop with entries of B left, without asking allow_incomplete
-            parent = [n for n in fn.nodes() if n.get("k") == "Block" and any(x is w for x in n.get("s", []))]
-            after = parent[0]["s"][[x is w for x in parent[0]["s"]].index(True) + 1:] if parent else []
-            if any(y.get("noreturn") for st_ in after for y in walk(st_)) or any(is_call(y) and y.get("k") in ("Call", "MCall") and y.get("a") for x in extras for y in walk(x)):
-                raise Unknown("merge loop condition `%s` has extra conjuncts and the code after the loop may handle the remaining entries (not modelled)" % render(w["c"])[:80])
-            ck.ob("E7.no-silent-drop", keybase, False,
-                  "line %s: the merge loop also ends when `%s` becomes false, with entries of %s left and without asking allow_incomplete: with allow_incomplete == false the missing entries are dropped silently instead of reaching XABORTM (a refusal branch testing the same condition inside the loop is unreachable)" % (
-                      w.get("l"), " && ".join(render(x) for x in extras)[:120], accessor(loc, main[0][1][1]["b"])["obj"]),
-                  fn.file, w.get("l"))
-            return None
-        c = {"k": "Bin", "op": "<", "lhs": main[0][1][0], "rhs": main[0][1][1], "i": strip(w["c"]).get("i")}
-        bcur = strip(c["lhs"])["d"]
-        bname = strip(c["lhs"])["n"]
-        bacc = accessor(loc, strip(c["rhs"])["b"]) if strip(c["rhs"]).get("k") == "Index" else None
-        if not bacc or bacc["name"] != "row_ptr" or bacc["obj"] == "this":
-            raise Unknown("merge loop is not bounded by the row_ptr of the right factor")
-        bobj = bacc["obj"]
-        H = [b for b in cfg.blocks.values() if b.get("term") == "WhileStmt" and b.get("cond") == w["c"].get("i")]
-        if len(H) != 1 or len(H[0].get("succ", [])) != 2:
-            raise Unknown("loop header not found in the CFG")
-        H = H[0]
-        body0, X = H["succ"][0], H["succ"][1]
-        R = cfg.reachable(body0, avoid={H["id"], X})
-        R.discard(cfg.exit)
-        # dominators inside the body (acyclic region rooted at the body entry)
-        succR = {b: [s for s in cfg.succ.get(b, []) if s in R] for b in R}
-        predR = {b: [] for b in R}
-        for b, ss in succR.items():
-            for s in ss:
-                predR[s].append(b)
-        dom = {b: set(R) for b in R}
-        dom[body0] = {body0}
-        changed = True
-        while changed:
-            changed = False
-            for b in R:
-                if b == body0:
-                    continue
-                ps = predR[b]
-                new = (set.intersection(*[dom[p] for p in ps]) if ps else set()) | {b}
-                if new != dom[b]:
-                    dom[b] = new
-                    changed = True
-        # classify statements
-        def writes_x(n):
-            """statement that modifies this->val()[cursor]"""
-            tgt = None
-            if n.get("k") == "Assign":
-                tgt = n["lhs"]
-            elif n.get("k") == "OpCall" and n.get("op") in ("+=", "-=", "=", "*=") and n.get("a"):
-                tgt = n["a"][0]
-            elif n.get("k") == "Call" and n.get("a"):
-                pt = n.get("pt", [])
-                if pt and "&" in fn.type(pt[0]) and "const" not in fn.type(pt[0]):
-                    tgt = n["a"][0]
-            if tgt is None:
-                return None
-            t = strip(tgt)
-            if t.get("k") == "Index":
-                a = accessor(loc, t["b"])
-                if a and a["obj"] == "this" and a["name"] == "val":
-                    return t
-            return None
-        acc_pos = []      # (block, pos, node)
-        adv = []          # (block, pos, node) advances of the B cursor
-        xcur = None
-        for b in R:
-            for pos, e in enumerate(cfg.blocks[b]["el"]):
-                n = fn.by_id(e)
-                if n is None:
-                    continue
-                t = writes_x(n)
-                if t is not None:
-                    acc_pos.append((b, pos, n))
-                    ix = strip(t["idx"])
-                    if ix.get("k") == "Ref":
-                        xcur = ix["d"]
-                if n.get("k") == "Un" and n.get("op") in ("++", "--") and strip(n["e"]).get("d") == bcur:
-                    adv.append((b, pos, n))
-                if n.get("k") == "Assign" and strip(n["lhs"]).get("k") == "Ref" and strip(n["lhs"]).get("d") == bcur:
-                    adv.append((b, pos, n))
-        if len(acc_pos) != 1:
-            raise Unknown("%d statements write this->val()[.] in the merge loop, expected the accumulate statement" % len(acc_pos))
-        ab, apos, an = acc_pos[0]
-        # accumulate reads b.val()[B cursor]
-        b_reads = set()
-        deps = [an]
-        seen = set()
-        vardecl = {n2["d"]: n2 for n2 in fn.nodes() if n2.get("k") == "Var"}
-        while deps:
-            x = deps.pop()
-            for y in walk(x):
-                if y.get("k") == "Index":
-                    a = accessor(loc, y["b"])
-                    if a and a["obj"] == bobj and a["name"] == "val":
-                        b_reads.add(strip(y["idx"]).get("d"))
-                if y.get("k") == "Ref" and y.get("dk") == "local" and y.get("d") not in seen:
-                    seen.add(y["d"])
-                    if y["d"] in vardecl and vardecl[y["d"]].get("init") is not None and y["d"] not in (bcur,):
-                        deps.append(vardecl[y["d"]]["init"])
-                    # locals written in the same block before the accumulate (temp.set_mat_mat_mult(omega, data_b[lj]))
-                    for e in cfg.blocks[ab]["el"][:apos]:
-                        z = fn.by_id(e)
-                        if z is not None and z.get("k") == "MCall" and strip(z.get("obj") or {}).get("d") == y["d"]:
-                            deps.append(z)
-        # guards: true edge of `allow_incomplete`
-        guard_blocks = set()
-        known_cond = set()
-        for b in R:
-            blk = cfg.blocks[b]
-            if blk.get("term") == "IfStmt" and blk.get("cond") is not None and len(blk.get("succ", [])) == 2:
-                cn = loc.resolve(fn.by_id(blk["cond"]) or {})
-                neg = False
-                for _ in range(3):
-                    if cn.get("k") == "Un" and cn.get("op") == "!":
-                        neg = not neg
-                        cn = loc.resolve(cn["e"])
-                    elif cn.get("k") == "Bin" and cn.get("op") in ("==", "!=") and strip(cn["rhs"]).get("k") == "Bool":
-                        if (cn["op"] == "==") != bool(strip(cn["rhs"])["v"]):
-                            neg = not neg
-                        cn = loc.resolve(cn["lhs"])
-                if cn.get("k") == "Ref" and cn.get("dk") == "param" and cn.get("n") == "allow_incomplete":
-                    known_cond.add(b)
-                    t = blk["succ"][1 if neg else 0]
-                    if t in R and predR.get(t) == [b]:
-                        guard_blocks.add(t)
-        def guarded(b):
-            return bool(dom[b] & guard_blocks)
-        problems = []
-        unmodelled = []        # constructs that make "missing effect" verdicts indefinite
-        if bcur not in b_reads:
-            if b_reads:
-                problems.append("line %s: the accumulate statement reads %s.val() at another index than the B cursor `%s`" % (an.get("l"), bobj, bname))
-            else:
-                unmodelled.append("the value added by the accumulate statement (line %s) is not traced to %s.val()" % (an.get("l"), bobj))
-        # cursors handed to other code, conditions the rule does not understand
-        for b in R:
-            blk = cfg.blocks[b]
-            for e in blk["el"]:
-                n = fn.by_id(e)
-                for y in walk(n) if n else []:
-                    if is_call(y) and y.get("callee") != "FEAT::abortion":
-                        for a_ in y.get("a", []) + ([y["obj"]] if y.get("obj") else []):
-                            a_ = strip(a_)
-                            if a_.get("k") == "Un" and a_.get("op") == "&":
-                                a_ = strip(a_["e"])
-                            if a_.get("k") == "Ref" and a_.get("d") in (bcur, xcur):
-                                unmodelled.append("cursor passed to `%s` (line %s)" % (y.get("callee", "?")[:50], y.get("l")))
-                    if y.get("k") == "Lambda":
-                        unmodelled.append("lambda at line %s" % y.get("l"))
-            if len(blk.get("succ", [])) == 2 and blk.get("term") not in ("IfStmt", "WhileStmt"):
-                unmodelled.append("compound condition (%s) at block %d" % (blk.get("term"), b))
-        # accumulate only under col_ind equality of the two cursors
-        eq_blocks = set()
-        bound_ok_blocks = set()
-        xend_blocks = set()
-        colrel = {}
-        for b in R:
-            blk = cfg.blocks[b]
-            if blk.get("term") == "IfStmt" and blk.get("cond") is not None and len(blk.get("succ", [])) == 2:
-                cn = loc.resolve(fn.by_id(blk["cond"]) or {})
-                sx = list(blk["succ"])
-                while cn.get("k") == "Un" and cn.get("op") == "!":
-                    cn = loc.resolve(cn["e"])
-                    sx.reverse()
-                if cn.get("k") == "Bin" and cn.get("op") == "==":
-                    sides = []
-                    for sd in (cn["lhs"], cn["rhs"]):
-                        sd = loc.resolve(sd)
-                        if sd.get("k") == "Index":
-                            a = accessor(loc, sd["b"])
-                            if a and a["name"] == "col_ind":
-                                sides.append((a["obj"], strip(sd["idx"]).get("d")))
-                    if sorted(sides, key=str) == sorted([("this", xcur), (bobj, bcur)], key=str):
-                        t = sx[0]
-                        if predR.get(t) == [b]:
-                            eq_blocks.add(t)
-                if cn.get("k") == "Bin" and cn.get("op") in (">=", "<", ">", "<=", "==", "!=") and xcur is not None:
-                    lcur, rr, op_ = strip(cn["lhs"]), loc.resolve(cn["rhs"]), cn["op"]
-                    if lcur.get("d") != xcur and strip(cn["rhs"]).get("d") == xcur:
-                        lcur, rr = strip(cn["rhs"]), loc.resolve(cn["lhs"])
-                        op_ = {"<": ">", ">": "<", "<=": ">=", ">=": "<=", "==": "==", "!=": "!="}[op_]
-                    a = accessor(loc, rr["b"]) if rr.get("k") == "Index" else None
-                    if lcur.get("d") == xcur and a and a["obj"] == "this" and a["name"] == "row_ptr":
-                        known_cond.add(b)
-                        # edge on which the cursor is known to be inside its row / known to be at (or past) the row end
-                        inb = {">=": 1, "<": 0, "==": 1, "!=": 0}.get(op_)
-                        end_ = {">=": 0, "<": 1, "==": 0, "!=": 1, ">": 0, "<=": 1}.get(op_)
-                        if inb is not None:
-                            t = sx[inb]
-                            if predR.get(t) == [b]:
-                                bound_ok_blocks.add(t)
-                        t2 = sx[end_]
-                        if t2 in R and predR.get(t2) == [b]:
-                            xend_blocks.add(t2)          # X cursor has reached the end of its row: no slot can follow
-                # relation between the column of the X cursor and the column of the B cursor
-                if cn.get("k") == "Bin" and cn.get("op") in ("==", "!=", "<", ">", "<=", ">="):
-                    sd = []
-                    for q in (cn["lhs"], cn["rhs"]):
-                        q = loc.resolve(q)
-                        a = accessor(loc, q["b"]) if q.get("k") == "Index" else None
-                        sd.append((a["obj"], strip(q["idx"]).get("d")) if a and a["name"] == "col_ind" else None)
-                    if None not in sd and sorted(sd, key=str) == sorted([("this", xcur), (bobj, bcur)], key=str):
-                        known_cond.add(b)
-                        op = cn["op"] if sd[0] == ("this", xcur) else {"<": ">", ">": "<", "<=": ">=", ">=": "<=", "==": "==", "!=": "!="}[cn["op"]]
-                        neg = {"<": ">=", ">": "<=", "<=": ">", ">=": "<", "==": "!=", "!=": "=="}[op]
-                        for k_, rel_ in ((0, op), (1, neg)):
-                            t3 = sx[k_]
-                            if t3 in R and predR.get(t3) == [b]:
-                                colrel.setdefault(rel_, set()).add(t3)
-        for b in R:
-            blk = cfg.blocks[b]
-            if blk.get("term") == "IfStmt" and len(blk.get("succ", [])) == 2 and b not in known_cond:
-                cnode = fn.by_id(blk["cond"]) if blk.get("cond") is not None else None
-                unmodelled.append("condition `%s` (line %s)" % (render(cnode)[:50] if cnode else "?", cnode.get("l") if cnode else "?"))
-        if not (dom[ab] & colrel.get("==", set())) and not ((dom[ab] & colrel.get("<=", set())) and (dom[ab] & colrel.get(">=", set()))):
-            other_rel = [r_ for r_ in ("<", ">", "!=") if dom[ab] & colrel.get(r_, set())]
-            if other_rel:
-                problems.append("line %s: the accumulate statement runs where col_ind(this)[X cursor] %s col_ind(%s)[B cursor], not where the columns are equal" % (an.get("l"), other_rel[0], bobj))
-            else:
-                unmodelled.append("equality of the two column indices is not established by a condition the rule models before the accumulate statement (line %s)" % an.get("l"))
-        def by_one(n, d):
-            """n advances the cursor d by exactly one"""
-            if n.get("k") == "Un" and n.get("op") == "++":
-                return True
-            if n.get("k") == "Assign":
-                r = strip(n["rhs"])
-                if n.get("op") == "+=" and r.get("k") == "Int" and int(r["v"]) == 1:
-                    return True
-                if n.get("op") == "=" and r.get("k") == "Bin" and r.get("op") == "+":
-                    x1, x2 = strip(r["lhs"]), strip(r["rhs"])
-                    if x2.get("k") == "Ref":
-                        x1, x2 = x2, x1
-                    return x1.get("k") == "Ref" and x1.get("d") == d and x2.get("k") == "Int" and int(x2["v"]) == 1
-            return False
-        for b, pos, n in adv:
-            after_acc = (b == ab and pos > apos) or (ab in dom[b] and ab != b)
-            if not (after_acc or guarded(b)):
-                problems.append("line %s: `%s` skips an entry of %s that was not accumulated and allow_incomplete is not known to be true on this path (silent drop)" % (n.get("l"), render(n), bobj))
-            if not by_one(n, bcur):
-                problems.append("line %s: `%s` moves the B cursor by something other than one entry: entries of %s are passed over without being examined (only the ONE entry without a slot may be dropped)" % (n.get("l"), render(n), bobj))
-        # at most one B advance per iteration
-        advs_in = {}
-        for b, pos, n in adv:
-            advs_in[b] = advs_in.get(b, 0) + 1
-        memo_cnt = {}
-        def maxadv(b, stack=()):
-            if b in memo_cnt:
-                return memo_cnt[b]
-            if b in stack:
-                raise Unknown("cycle inside the merge loop body")
-            v = advs_in.get(b, 0) + max([maxadv(s2, stack + (b,)) for s2 in succR[b]] or [0])
-            memo_cnt[b] = v
-            return v
-        if maxadv(body0) > 1:
-            problems.append("some path through one iteration advances the B cursor %d times: an entry of %s is passed over without being compared" % (maxadv(body0), bobj))
-        # on the allow_incomplete edge the only permitted effect is dropping that one entry
-        advid = {n.get("i") for _, _, n in adv}
-        for b in R:
-            if not guarded(b) or cfg.blocks[b].get("noreturn"):
-                continue
-            for e in cfg.blocks[b]["el"]:
-                n = fn.by_id(e)
-                if n is None or n.get("i") in advid:
-                    continue
-                if n.get("k") in ("Un", "Assign", "Call", "MCall", "OpCall"):
-                    if any((n.get("i") in {y.get("i") for y in walk(z)}) for _, _, z in adv):
-                        continue
-                    problems.append("line %s: `%s` on the allow_incomplete path: the only permitted effect there is `++%s` (drop the one entry without a slot)" % (n.get("l"), render(n)[:60], bname))
-        # leaving the loop early is permitted only when no slot can follow: X cursor at the end of its row
-        for b in R:
-            blk = cfg.blocks[b]
-            for s in cfg.succ.get(b, []):
-                early = (s == X) or (s == cfg.exit and not blk.get("noreturn"))
-                if not early:
-                    continue
-                tn = fn.by_id(blk["term_id"]) if blk.get("term_id") is not None else None
-                ln = tn.get("l") if tn else ((cfg.block_lines([b]) or [None])[-1])
-                what = "`break`" if s == X else "`return`"
-                if not guarded(b):
-                    problems.append("line %s: %s leaves the merge loop with entries of %s left and allow_incomplete not known to be true (silent drop)" % (ln, what, bobj))
-                if not (dom[b] & xend_blocks):
-                    problems.append("line %s: %s abandons the rest of row %s although the X cursor is not known to be at the end of its row (X cursor >= row_ptr(this)[i+1] does not control this exit): later entries of %s that do have a slot in X lose their contribution" % (ln, what, bobj, bobj))
-        # the X cursor passes over a slot only after it was served or when its column is smaller than the current B column
-        for b in R:
-            for pos, e in enumerate(cfg.blocks[b]["el"]):
-                n = fn.by_id(e)
-                if n is None or xcur is None:
-                    continue
-                isx = (n.get("k") == "Un" and n.get("op") in ("++", "--") and strip(n["e"]).get("d") == xcur) or \
-                      (n.get("k") == "Assign" and strip(n["lhs"]).get("k") == "Ref" and strip(n["lhs"]).get("d") == xcur)
-                if not isx:
-                    continue
-                after_acc = (b == ab and pos > apos) or (ab in dom[b] and ab != b)
-                less = bool(dom[b] & colrel.get("<", set())) or (bool(dom[b] & colrel.get("<=", set())) and bool(dom[b] & colrel.get("!=", set())))
-                if not (after_acc or less):
-                    problems.append("line %s: `%s` passes over a slot of X that was neither served nor has a smaller column than the current entry of %s (a later entry of %s may belong there)" % (n.get("l"), render(n), bobj, bobj))
-                if not by_one(n, xcur):
-                    problems.append("line %s: `%s` moves the X cursor by something other than one slot" % (n.get("l"), render(n)))
-        # every dereference of the X cursor is dominated by its bound check
-        for b in R:
-            ids = list(cfg.blocks[b]["el"]) + ([cfg.blocks[b]["cond"]] if cfg.blocks[b].get("cond") is not None else [])
-            for e in ids:
-                n = fn.by_id(e)
-                for y in walk(n) if n else []:
-                    if y.get("k") == "Index" and strip(y["idx"]).get("d") == xcur and xcur is not None:
-                        a = accessor(loc, y["b"])
-                        if a and a["obj"] == "this" and a["name"] in ("col_ind", "val") and not (dom[b] & bound_ok_blocks):
-                            problems.append("line %s: %s dereferences the X cursor without a dominating check against row_ptr(this)[i+1] (runs into the next row of X)" % (y.get("l"), render(y)))
-        problems = sorted(set(problems))
+        bpar = [p for p in fn.params if p["n"] == "b" and mat_class(fn.type(p["t"]))]
+        if len(bpar) != 1 or not any(p["n"] == "allow_incomplete" for p in fn.params):
+            raise Unknown("no matrix parameter `b` (right factor) / no parameter `allow_incomplete`")
+        mi = MergeInterp(fn, bobj="b", ai_name="allow_incomplete")
+        problems, unmodelled = mi.run()
+        w = mi.merge_node
         if unmodelled and (problems or any("accumulate" in u for u in unmodelled)):
-            raise Unknown("merge loop uses constructs the path rule does not model (%s); %d potential problems withheld" % ("; ".join(sorted(set(unmodelled))[:3]), len(problems)))
+            raise Unknown("merge loop uses constructs the path rule does not model (%s); %d potential problems withheld" % ("; ".join(unmodelled[:3]), len(problems)))
+        where = "" if mi.merge_fr is mi.root else " [merge loop in helper %s, inlined]" % mi.merge_fr.fn.name
         ck.ob("E7.no-silent-drop", keybase, not problems,
-              "; ".join(problems) if problems else "B cursor `%s` advances at %d places, by one, at most once per iteration: after the accumulate statement or as the only effect of the allow_incomplete edge; early exit only with the X cursor at its row end and allow_incomplete; other exits abort; X cursor bounds-checked and only passes served or smaller-column slots" % (bname, len(adv)),
-              fn.file, w.get("l"), sample={"advances": [render(n) + "@%s" % n.get("l") for _, _, n in adv], "accumulate": render(an)[:100]})
+              "; ".join(problems) if problems else "B cursor `%s` advances at %d places, by one, at most once per iteration: after the accumulate statement or as the only effect of a path on which allow_incomplete is true; the merge is left with entries of b remaining only with the X cursor at its row end and allow_incomplete; every other such path reaches XABORTM; both cursors are bounds-checked before they are dereferenced; the X cursor only passes served or smaller-column slots%s" % (mi.bname, len(mi.n_adv), where),
+              mi.merge_fr.fn.file, w.get("l"), sample={"accumulate": render(mi.acc)[:100], "merge loop": "%s at line %s of %s" % (w.get("k"), w.get("l"), mi.merge_fr.fn.name)})
         # normalised cursor logic for the sibling note
-        names = {}
-        for d, v in ((bcur, "B"), (xcur, "X")):
-            for n in fn.nodes():
-                if n.get("k") == "Var" and n.get("d") == d:
-                    names[n["n"]] = v
+        names = {mi.bname: "B", mi.xname: "X"}
+        an = mi.acc
+
+        def rn(t):
+            for nm, v in names.items():
+                t = re.sub(r"\b%s\b" % re.escape(nm), v, t)
+            t = re.sub(r"\b\w+\[\(?(\w+)( \+ 1)?\)?\]", lambda m: "A[%s%s]" % ("." if m.group(1) not in ("X", "B") else m.group(1), "+1" if m.group(2) else ""), t)
+            return t
+
         def norm(n, ind=0):
             out = []
             for s in stmts(n):
@@ -1150,11 +857,6 @@ def merge_paths(ck, fn, sig):
                 else:
                     out.append(" " * ind + rn(render(s)))
             return out
-        def rn(t):
-            for nm, v in names.items():
-                t = re.sub(r"\b%s\b" % re.escape(nm), v, t)
-            t = re.sub(r"\b\w+\[\(?(\w+)( \+ 1)?\)?\]", lambda m: "A[%s%s]" % ("." if m.group(1) not in ("X", "B") else m.group(1), "+1" if m.group(2) else ""), t)
-            return t
         return "\n".join(norm(w["body"]))
     except Unknown as e:
         ck.incomplete("E7.no-silent-drop", "%s: %s" % (keybase, e))
@@ -1162,75 +864,91 @@ def merge_paths(ck, fn, sig):
 
 
 def merge_enumeration(ck, fn, sig):
-    """E7.full-enumeration: the loops over rows / D-entries / A-entries that enclose the merge loop visit every entry"""
-    loc = Locals(fn)
+    """E7.full-enumeration: the loops over rows / D-entries / A-entries that enclose the merge loop (in the product itself
+    or in an inlined helper) visit every entry"""
     keybase = "%s::%s%s" % (short(fn.cls), fn.name, sig)
-    found = []     # (loop chain, conds, node) for every break/continue/return, with the loops and conditions enclosing it
-
-    def scan(n, loops, conds, order):
-        k = n.get("k") if isinstance(n, dict) else None
-        if k in ("Break", "Continue", "Return"):
-            found.append((list(loops), list(conds), n, dict(order)))
-            return
-        if k in ("For", "While", "Do", "ForRange"):
-            for part in ("init", "c", "inc"):
-                pass
-            body = n.get("body")
-            if body is not None:
-                sts = body.get("s", []) if body.get("k") == "Block" else [body]
-                for pos, st in enumerate(sts):
-                    o2 = dict(order)
-                    o2[n.get("i")] = pos
-                    scan(st, loops + [n], conds, o2)
-            return
-        if k == "If":
-            scan(n["then"], loops, conds + [n["c"]], order)
-            if n.get("else") is not None:
-                scan(n["else"], loops, conds + [n["c"]], order)
-            return
-        if k == "Block":
-            for st in n.get("s", []):
-                scan(st, loops, conds, order)
-            return
-        if k == "Lambda":
-            return
-    scan(fn.body, [], [], {})
-    whiles = [n for n in fn.nodes() if n.get("k") == "While"]
-    if len(whiles) != 1:
+    try:
+        mi = MergeInterp(fn, bobj="b", ai_name="allow_incomplete")
+    except Unknown:
         return        # reported by E7.no-silent-drop
-    w = whiles[0]
-    # chain of for loops around the merge loop, and the position of the statement holding the merge loop in each body
+    # dynamic chain of loops around the merge loop: (frame, loop node, id of the node inside its body that leads to the merge)
     chain = []
-    def find(n, path):
-        if n is w:
-            chain.extend(path)
-            return True
-        for ch in featlib.children(n):
-            if find(ch, path + ([n] if n.get("k") == "For" else [])):
-                return True
-        return False
-    find(fn.body, [])
-    for F in chain:
-        cl = counting_loop(F) if F.get("init") is not None else None
+    fr, inner = mi.merge_fr, mi.merge_node
+    while fr is not None:
+        for F in reversed(fr.loop_chains().get(inner.get("i"), [])):
+            chain.insert(0, (fr, F, inner.get("i")))
+            inner = F
+        if fr.parent is None:
+            break
+        inner = fr.call
+        fr = fr.parent
+    # fix the "leads to the merge" ids: for each chain loop it is the next chain element (or the merge loop / the call)
+    leads = {}
+    fr, inner = mi.merge_fr, mi.merge_node
+    while fr is not None:
+        for F in reversed(fr.loop_chains().get(inner.get("i"), [])):
+            leads[(fr.uid, F.get("i"))] = inner
+            inner = F
+        if fr.parent is None:
+            break
+        inner = fr.call
+        fr = fr.parent
+    found_by_frame = {}
+
+    def scan_fn(fr):
+        found = []
+
+        def scan(n, loops, conds, order):
+            k = n.get("k") if isinstance(n, dict) else None
+            if k in ("Break", "Continue", "Return"):
+                found.append((list(loops), list(conds), n, dict(order)))
+                return
+            if k in ("For", "While", "Do", "ForRange"):
+                body = n.get("body")
+                if body is not None:
+                    sts = body.get("s", []) if body.get("k") == "Block" else [body]
+                    for pos, st in enumerate(sts):
+                        o2 = dict(order)
+                        o2[n.get("i")] = pos
+                        scan(st, loops + [n], conds, o2)
+                return
+            if k == "If":
+                scan(n["then"], loops, conds + [n["c"]], order)
+                if n.get("else") is not None:
+                    scan(n["else"], loops, conds + [n["c"]], order)
+                return
+            if k == "Block":
+                for st in n.get("s", []):
+                    scan(st, loops, conds, order)
+                return
+        scan(fr.fn.body, [], [], {})
+        return found
+    for fr, F, _ in chain:
+        if F.get("k") != "For":
+            continue
+        if fr.uid not in found_by_frame:
+            found_by_frame[fr.uid] = scan_fn(fr)
+        found = found_by_frame[fr.uid]
+        lead = leads[(fr.uid, F.get("i"))]
         role = "?"
         if F.get("init") is not None and F["init"].get("k") == "Decl" and F["init"]["vars"]:
             iv = strip(F["init"]["vars"][0].get("init") or {})
-            if iv.get("k") == "Index":
-                a = accessor(loc, iv["b"])
-                role = "%s.%s" % (a["obj"], a["name"]) if a else "?"
+            ai_ = fr.array_index(iv)
+            if ai_ is not None:
+                role = "%s.%s" % (ai_[0]["obj"], ai_[0]["name"])
             elif is_zero(iv):
-                a = accessor(loc, strip(F["c"])["rhs"]) if strip(F["c"]).get("k") == "Bin" else None
+                a = fr.accessor(strip(F["c"])["rhs"]) if strip(F["c"]).get("k") == "Bin" else None
                 role = "%s.%s" % (a["obj"], a["name"]) if a else "?"
         key = "%s/loop:%s" % (keybase, role)
         body = F.get("body")
         sts = body.get("s", []) if body is not None and body.get("k") == "Block" else [body]
         inner_pos = None
         for pos, st in enumerate(sts):
-            if any(x is w for x in walk(st)):
+            if any(x is lead for x in walk(st)):
                 inner_pos = pos
         problems, soft = [], []
         for loops, conds, node, order in found:
-            if F not in loops:
+            if not any(x is F for x in loops):
                 continue
             target = loops[-1]
             ctext = " && ".join(render(c)[:60] for c in conds[-2:]) or "(unconditionally)"
@@ -1244,7 +962,7 @@ def merge_enumeration(ck, fn, sig):
         if soft and not problems:
             ck.incomplete("E7.full-enumeration", "%s: %s" % (key, "; ".join(soft[:2])))
             continue
-        ck.ob("E7.full-enumeration", key, not problems, "; ".join(problems) if problems else "no break/return leaves the loop over %s; every entry reaches the merge loop" % role, fn.file, F.get("l"))
+        ck.ob("E7.full-enumeration", key, not problems, "; ".join(problems) if problems else "no break/return leaves the loop over %s; every entry reaches the merge loop" % role, fr.fn.file, F.get("l"))
 
 
 # -------------------------------------------------------------------------------------------------
